@@ -593,7 +593,7 @@ func (ev *evidence) fill(eng *Engine, pd *PropDef, runs []*HarnessRun, okW, badW
 	sort.Strings(fl)
 	cov["functions_encoded"] = fl
 	cov["harnesses"] = harn
-	cov["bounds"] = append(append([]string{}, pd.Bounds...), fmt.Sprintf("loop unwinding bound %d per frame (UNWIND is reported, never truncated silently)", eng.cfg.unwind),
+	cov["bounds"] = append(append([]string{"the parameters this run actually used are listed per harness under coverage.harnesses[].params; where a text below names 'quick / thorough' values that differ, the listed parameters prevail (thorough bounds that were not run clean on the unchanged tree are registered at the quick values)"}, pd.Bounds...), fmt.Sprintf("loop unwinding bound %d per frame (UNWIND is reported, never truncated silently)", eng.cfg.unwind),
 		fmt.Sprintf("Split/Fields piece bound %d, call depth %d, %d instructions per path", eng.cfg.maxPieces, eng.cfg.maxDepth, eng.cfg.maxSteps))
 	cov["outside_the_claim"] = pd.Outside
 	cov["paths"] = map[string]int64{"explored": st.paths, "completed": st.completed, "infeasible": st.infeasible, "ended_in_panic": st.panics,
